@@ -9,7 +9,7 @@ CLAIM = {
          "membership, CIDR/netmask parsing, prefix<->netmask conversion and classful inference equal arithmetic oracles for symbolic addresses and "
          "prefix lengths, that malformed text is rejected, and that datapath-id strings round-trip for every 64-bit id, including the 16-hex-digit, "
          "0x-prefixed and dashed 8-byte spellings str_to_dpid accepts."
-         " Also: IPv6 CIDR text read leniently and strictly in both orders, mixed notation on request, binary input forms and immutability (O5_forms).",
+         " Also: IPv6 CIDR text read leniently and strictly in both orders, mixed notation on request, binary input forms and immutability (O5_forms). More malformed texts (too few IPv6 groups, lone colons, non-octet EthAddr groups, text after white space), IPv6 (address, bits) tuples with host bits, IPAddr6(IPAddr) is IPv4-mapped.",
  'note': "Trusted: CPython, z3, symx proxies/shims incl. the char-level text model (numerals fork on their digit count) and the inet_aton/inet_ntoa "
          "models, the oracles in props/C16.py. Text inputs follow the listed grammars with symbolic numerals; free-form symbolic strings are outside.",
 }
